@@ -266,14 +266,32 @@ Section Lookup.
       let n := match i_name sp with [] => i_pkgname sp | n => n end in
       str_eqb n name && negb (str_eqb n (s2b "_")) && negb (str_eqb n (s2b "."))) (d_imports d).
 
+  (** the exported objects of dot-imported packages are declared in the file scope too *)
+  Definition dot_lookup (name : str) : option sobj :=
+    if negb (is_exported name) then None else
+    fold_left (fun acc sp =>
+        match acc with
+        | Some _ => acc
+        | None =>
+            if negb (str_eqb (i_name sp) (s2b ".")) then None else
+            match find (fun ps => str_eqb (fst ps) (i_path sp)) (d_imported d) with
+            | Some ps => scope_get (snd ps) name
+            | None => None
+            end
+        end) (d_imports d) None.
+
   Definition lookup_type (type_name : str) : looked :=
     match split_on 46 type_name with
     | [single] =>
         if file_scope_has single then LObj OOther
-        else match scope_get (d_pkgscope d) single with
+        else match dot_lookup single with
+        | Some o => LObj o
+        | None =>
+             match scope_get (d_pkgscope d) single with
              | Some o => LObj o
              | None => if mem_str single (d_universe d) then LObj OOther else LNotFound
              end
+        end
     | first :: second :: _ =>
         match lookup_path first with
         | None => LNotFound
@@ -302,7 +320,7 @@ Section Lookup.
               else errorf (at_pos' pos (s2b "function " ++ name ++ s2b " cannot use as a converter"))
           | _, _ => panic "lookupConverterFunc: unreachable"
           end
-    | LObj OFuncUnref => panic "model: unreferenced function looked up"
+    | LObj OFuncUnref => unsup "model: function looked up whose signature was not dumped"
     | LObj _ => errorf (at_pos' pos (name ++ s2b " isn't a function"))
     end.
 
@@ -332,7 +350,7 @@ Section Lookup.
               (* fewer than two parameters: rejected before make([]types.Type, n-2) *)
               errorf (at_pos' pos (s2b "function " ++ name ++ s2b " cannot use for " ++ s2b opt_name ++ s2b " func"))
           end
-    | LObj OFuncUnref => panic "model: unreferenced function looked up"
+    | LObj OFuncUnref => unsup "model: function looked up whose signature was not dumped"
     | LObj _ => errorf (at_pos' pos (name ++ s2b " isn't a function"))
     end.
 
